@@ -761,16 +761,29 @@ class C05(Prop):
         elif op == "rpms":
             doc = a["doc"]
             rp = doc["payload"]["rpms"]
+
+            def pruned(d):
+                """a variant / arch without content cannot be expressed in a 0.3 manifest: drop it with its last entry"""
+                r = d["payload"]["rpms"]
+                for v in list(r):
+                    for ar in list(r[v]):
+                        for sr in list(r[v][ar]):
+                            if not r[v][ar][sr]:
+                                del r[v][ar][sr]
+                        if not r[v][ar]:
+                            del r[v][ar]
+                    if not r[v]:
+                        del r[v]
+                return d
             for v in rp:
-                d = copy.deepcopy(doc); del d["payload"]["rpms"][v]; out.append(with_("doc", d))
+                d = copy.deepcopy(doc); del d["payload"]["rpms"][v]; out.append(with_("doc", pruned(d)))
                 for ar in rp[v]:
-                    d = copy.deepcopy(doc); del d["payload"]["rpms"][v][ar]; out.append(with_("doc", d))
-                    for sr in rp[v][ar]:
-                        if any(sr in rp[v][x] for x in rp[v]):
-                            d = copy.deepcopy(doc)
-                            for x in d["payload"]["rpms"][v]:
-                                d["payload"]["rpms"][v][x].pop(sr, None)
-                            out.append(with_("doc", d))
+                    d = copy.deepcopy(doc); del d["payload"]["rpms"][v][ar]; out.append(with_("doc", pruned(d)))
+                for sr in sorted(set(x for ar in rp[v] for x in rp[v][ar])):
+                    d = copy.deepcopy(doc)
+                    for x in d["payload"]["rpms"][v]:
+                        d["payload"]["rpms"][v][x].pop(sr, None)
+                    out.append(with_("doc", pruned(d)))
         elif op == "ti":
             spec = a["spec"]
             for i in range(len(spec["variants"])):
